@@ -12,6 +12,7 @@ pub mod c11;
 pub mod c12;
 pub mod c13;
 pub mod c14;
+pub mod c15;
 pub mod c18;
 pub mod c19;
 
@@ -29,6 +30,7 @@ pub fn dispatch(engine: &str, sh: &mut Shard) -> bool {
         "c12" => c12::run(sh),
         "c13" => c13::run(sh),
         "c14" => c14::run(sh),
+        "c15" => c15::run(sh),
         "c18" => c18::run(sh),
         "c19" => c19::run(sh),
         _ => return false,
